@@ -11,7 +11,7 @@
   <val> is a C05 value token; <sv> is `g:<hex UTF-8 bytes>` (Go string) or `w:<hex UTF-16 units>`.
   Numbers are answered as 16 hex digits.  For the library functions whose finite results ES5 leaves
   "implementation-dependent" (sin … log, pow, atan2) a finite non-zero result is answered as
-  `~` + the top 40 bits of its pattern: the opaque `Lib` is instantiated HERE (and only here) with the
+  `~` + its pattern rounded to the top 40 bits: the opaque `Lib` is instantiated HERE (and only here) with the
   C library through Lean's `Float`, used as a reference value, and compared to 28 significant bits.
 -/
 import OttoVerif.Base.Proto
@@ -76,7 +76,7 @@ def lib : Lib := { core1 := ref1, powCore := refPow, powLogPath := refPowLogPath
 def exactOut (x : FV) : String := f64Out x
 def approxOut (x : FV) : String :=
   match x with
-  | .fin _ m _ => if m = 0 then f64Out x else "~" ++ toHexPadded 10 ((encode x).toNat / 2^24)
+  | .fin _ m _ => if m = 0 then f64Out x else "~" ++ toHexPadded 10 (((encode x).toNat + 2^23) / 2^24)
   | _ => f64Out x
 
 def fn1? : String → Option Fn1
